@@ -185,7 +185,8 @@ CHECKS = {
                        "every source must equal the model's, at most one attempt may be live at any time, and at each new subscription every earlier attempt must have "
                        "delivered its terminal and had its teardown run. Retry under cancellation: no further attempt and Error(context.Canceled)."
                        " Asynchronous attempts are repeated in virtual time with teardowns that take time and a first notification that comes after the operator started waiting: the next attempt may only be subscribed once the previous teardown has FINISHED."
-                       " Retry with a Delay (virtual time): spacing, budget, and a cancellation of the subscription context during a wait ends the stream at that instant whatever context the failed attempt's error carried."),
+                       " Retry with a Delay (virtual time): spacing, budget, and a cancellation of the subscription context during a wait ends the stream at that instant whatever context the failed attempt's error carried."
+                       " The same operators over attempts ending with Error(nil): same output, same number of subscriptions of the source as with a non-nil error."),
         "level_note": "Catch is a listed finding (fallback subscribed from inside the error callback). Retry with a Delay is exercised in the virtual-time check C16.",
     },
     "C11": {
@@ -371,7 +372,8 @@ CHECKS = {
                        "non-commuting maps; creation operators are compared with their definition including int64 extremes; delivered slices/maps are "
                        "checked for later mutation. Sampled beyond the small scope; no claim outside explored cases."
                        " Sum, Average, Min, Max, Clamp and Count are run over every numeric element type (int8..uint64, float32/64, values at the type's limits) against exact rational arithmetic."
-                       " Dematerialize over arbitrary notification streams (in-band and out-of-band endings, Take upstream); for every operator that delivers slices or maps, a consumer that clears whatever it receives must be delivered the same sequence as a passive one."),
+                       " Dematerialize over arbitrary notification streams (in-band and out-of-band endings, Take upstream); for every operator that delivers slices or maps, a consumer that clears whatever it receives must be delivered the same sequence as a passive one."
+                       " Every catalogue row is also fed a stream that ends with Error(nil) (the library accepts it): same values and same kind of ending as with a non-nil error."),
         "level_note": ("Trusts the hand-written reference models (harness/model) and the documentation reading recorded in DESIGN.md appendix A. "
                        "Time-driven, hand-off and multi-source rows are judged by C05/C08/C16/C17, float rounding helpers by validity predicates only."),
     },
